@@ -236,9 +236,9 @@ def cmd_check(args):
     cov["known_findings_hit"] = [f"{v.cls} [{v.fingerprint}]" for _, v in known_hits]
     cov["violations_of_other_properties_seen_not_reported_here"] = other
     cov["exhaustive"] = False
-    core.write_evidence(prop, tier, master, cov, wall, len(reported),
-                        getattr(eng, "ASSUMPTIONS", []) if not hasattr(eng, "assumptions")
-                        else eng.assumptions(prop))
+    assump = eng.assumptions(prop) if hasattr(eng, "assumptions") else \
+        getattr(eng, "ASSUMPTIONS", [])
+    core.write_evidence(prop, tier, master, cov, wall, len(reported), assump)
     for path, v2, out in reported:
         print(f"violation: {v2.cls} [{v2.fingerprint}] {v2.msg[:600]}")
         print(f"VIOLATION property={prop} replay={path}")
